@@ -27,8 +27,11 @@ def run_variant(args):
     d = tempfile.mkdtemp(prefix='nvstat_var_')
     out = {'id': entry['id'], 'kind': kind, 'props': {}, 'applicable': True}
     try:
-        shutil.copytree(os.path.join(repo, 'nautilus'), os.path.join(d, 'nautilus'),
-                        ignore=shutil.ignore_patterns('__pycache__'))
+        import fcntl
+        with open('/tmp/nv_repo.lock', 'w') as lk:      # seed evaluation patches /repo briefly
+            fcntl.flock(lk, fcntl.LOCK_EX)
+            shutil.copytree(os.path.join(repo, 'nautilus'), os.path.join(d, 'nautilus'),
+                            ignore=shutil.ignore_patterns('__pycache__'))
         p = os.path.join(d, entry['file'])
         with open(p) as fh:
             s = fh.read()
